@@ -181,6 +181,10 @@ func (b *bitstream) Next() error {
 
 	// Found the end of the file.
 	if c == -1 {
+		if !b.stack.empty() {
+			// The input ended before the container we are in did.
+			return &UnexpectedEOFError{b.pos}
+		}
 		b.code = bitcodeEOF
 		return nil
 	}
@@ -1074,7 +1078,8 @@ func (b *bitstream) skip(n uint64) error {
 	b.pos += uint64(actual)
 
 	if err == io.EOF {
-		return nil
+		// Fewer than n bytes were left: the value being skipped is truncated.
+		return &UnexpectedEOFError{b.pos}
 	}
 	if err != nil {
 		return &IOError{err}
